@@ -127,7 +127,7 @@ class ExcoreCollection(dict):
 
         If the value has an ExcoreStructure type, assume we want to store this in the dictionary.
         """
-        if type(value) is ExcoreStructure:
+        if isinstance(value, ExcoreStructure):
             self.__setitem__(key, value)
         else:
             self.__dict__[key] = value
